@@ -77,7 +77,7 @@ func init() {
 			if fd == nil {
 				return fmt.Errorf("chunker.%s not found", fn)
 			}
-			c.defStringList("chunker_"+fn+"_calls", filterCalls(callNames(fd.Body)))
+			c.defStringList("chunker_"+fn+"_calls", prollyFilterCalls(callNames(fd.Body)))
 		}
 		// guard expressions of append
 		app := findFunc(ch, "chunker", "append")
@@ -131,7 +131,7 @@ func init() {
 		if nc == nil {
 			return fmt.Errorf("newChunker not found")
 		}
-		c.defStringList("newChunker_calls", filterCalls(callNames(nc.Body)))
+		c.defStringList("newChunker_calls", prollyFilterCalls(callNames(nc.Body)))
 
 		// capacity
 		const nbRel = "go/store/prolly/tree/node_builder.go"
@@ -189,7 +189,7 @@ func init() {
 			if fd == nil {
 				return fmt.Errorf("GenericMutableMap.%s not found", fn)
 			}
-			c.defStringList("mutable_"+fn+"_calls", filterCalls(callNames(fd.Body)))
+			c.defStringList("mutable_"+fn+"_calls", prollyFilterCalls(callNames(fd.Body)))
 			var cs []string
 			ast.Inspect(fd.Body, func(n ast.Node) bool {
 				if v, ok := n.(*ast.IfStmt); ok {
@@ -217,7 +217,7 @@ func init() {
 
 func oneLine(s string) string { return strings.Join(strings.Fields(s), " ") }
 
-func filterCalls(cs []string) []string {
+func prollyFilterCalls(cs []string) []string {
 	var out []string
 	for _, c := range cs {
 		switch c {
